@@ -199,9 +199,37 @@ def repeated_texts():
     return out
 
 
+def misplaced_texts():
+    """constructs that belong to namespace scope written in a class body, and class-only ones written outside: whatever the
+    parser does with them (today: reject), every callback it delivers must carry a state of the kind its signature declares"""
+    ns_only = ["template <class T> B(T) -> B<T>;", "B(int) -> B<int>;", "namespace inner { int q; }", "namespace al = std;", "using namespace std;",
+               "extern \"C\" { int c; }", "template <typename T> concept C = true;", "extern template class X<int>;", "template class X<int>;"]
+    cls_only = ["friend class F;", "public:", "virtual void v();", "explicit K(int);", "int b : 3;", "mutable int m;", "~K();"]
+    out = []
+    for x in ns_only:
+        out.append("struct A { template <class T> struct B { B(T); };\n" + x + "\nint tail; };\nint after;\n")
+        out.append("namespace n { class K { public:\n" + x + "\n}; }\n")
+    for x in cls_only:
+        out.append("int before;\n" + x + "\nint after;\n")
+        out.append("namespace n {\n" + x + "\n}\nextern \"C\" {\n" + x + "\n}\n")
+    return out
+
+
 def run(ctx):
+    global C05
+    import importlib
+    C05 = importlib.import_module("props.c05")
+    import gen_blocks
     rng = ctx.rng("hist")
-    texts = repeated_texts() + list(pcommon.corpus())
+    texts = repeated_texts() + misplaced_texts() + list(pcommon.corpus())
+    # block forests with trailing declarators, typedef'd classes and every leaf kind (the declining-visitor runs need them)
+    cnt = [3000]
+    for j in range(ctx.budget(60, 3000)):
+        gen_blocks.LEAF_MODE = "mix" if j % 2 else None
+        try:
+            texts.append(gen_blocks.program(gen_blocks.random_tree(rng, rng.randint(2, 7), cnt)))
+        finally:
+            gen_blocks.LEAF_MODE = None
     for _ in range(ctx.budget(120, 6000)):
         texts.append(gen_prog.gen_program(rng, budget=6)[0])
         texts.append(gen_prog.gen_class_program(rng)[0])
@@ -241,6 +269,15 @@ def run(ctx):
             bad = monitor(evd, rd["result"]["k"] == "ok", declined=dec)
             if bad:
                 mfails.append({"input": t, "declined": sorted(dec), "diff": "with a visitor declining %s: %s" % (sorted(dec), bad)})
+            else:
+                # complete: what the declining visitor receives is the full traversal minus the declined subtrees
+                full = [dict(e, _name=block_name_of(e)) if (e["cb"].endswith("_start") and e["cb"] != "on_parse_start") else e for e in r["events"]]
+                want = [C05.proj(e) for e in C05.py_prune(full, dec)]
+                got = [C05.proj(e) for e in rd["events"]]
+                if want != got:
+                    k = next((j for j, (x, y) in enumerate(zip(want, got)) if x != y), min(len(want), len(got)))
+                    mfails.append({"input": t, "declined": sorted(dec), "diff": "with a visitor declining %s the stream is not the full traversal minus the declined blocks: callback %d expected %s, got %s" % (
+                        sorted(dec), k, (want[k] if k < len(want) else None), (got[k] if k < len(got) else None))})
         # fold: parse_string result equals the inner SimpleCxxVisitor's data driven by the same stream
         if r["result"]["k"] == "ok":
             try:
@@ -269,7 +306,7 @@ def run(ctx):
     ctx.oracle("fold_is_fold", len(texts), foldfails)
     ctx.oracle("fault_every_position", nfault, ffails)
     ctx.sample({"input": texts[len(texts) // 3], "n_callbacks": len(impl.impl_parse(texts[len(texts) // 3], "f.h")["events"])})
-    pcommon.parse_corr(ctx, "parse[stream view]", texts[: ctx.budget(600, 8000)], proj=pcommon.proj_stream)
+    pcommon.parse_corr(ctx, "parse[stream view]", texts[: ctx.budget(650, 8000)], proj=pcommon.proj_stream)
     pcommon.parse_corr(ctx, "parse+fault", fault_cases, proj=pcommon.proj_stream)
     # fold correspondence: model's parse_string vs implementation
     if ctx.driver is not None:
